@@ -285,19 +285,44 @@ def decChunks : Nat → Bytes → Except DeErr (Bytes × Bytes)
         | .error e => .error e
         | .ok (more, r') => .ok (r.take n ++ more, r')
 
+/-- Decoder variants. -/
+structure DecCfg where
+  utf8 : Bool      -- validate UTF-8 of strings (decoding does, skipping/converting do not)
+  v2 : Bool        -- know the container kinds introduced in protocol 1.20
+  deriving DecidableEq, Repr
+
+/-- `Deserialize<tags::Value> for Value` as it is. -/
+def DecCfg.std : DecCfg := ⟨true, true⟩
+/-- The same without UTF-8 validation: exactly what `skip` and `convert` accept. -/
+def DecCfg.lax : DecCfg := ⟨false, true⟩
+/-- A decoder that predates protocol 1.20: kinds 43..65 are unknown to it. -/
+def DecCfg.legacy : DecCfg := ⟨true, false⟩
+
+/-- Kinds introduced in protocol 1.20 (epoch V2). -/
+def Kind.isV2 : Kind → Bool
+  | .vec2 | .bytes2 | .map2 _ | .set2 _ => true
+  | _ => false
+
+/-- `ValueKind::try_from(u8)` as seen by a decoder variant. -/
+def classifyC (cfg : DecCfg) (b : UInt8) : Option Kind :=
+  match classify b with
+  | Option.none => Option.none
+  | Option.some k => if k.isV2 && !cfg.v2 then Option.none else Option.some k
+
 mutual
 /-- `Deserializer::new(buf, depth)` followed by `Deserialize<tags::Value> for Value`.
-`utf8 = false` is the same decoder without the UTF-8 check (what skipping/converting accept). -/
-def dec (utf8 : Bool) : Nat → Bytes → Nat → Except DeErr (Value × Bytes)
+`cfg` selects the variant: `.std` is the real decoder, `.lax` omits the UTF-8 check (what skipping and
+converting accept), `.legacy` additionally knows none of the kinds introduced with protocol 1.20. -/
+def dec (cfg : DecCfg) : Nat → Bytes → Nat → Except DeErr (Value × Bytes)
   | 0, _, _ => .error .fuel
   | fuel + 1, bs, depth =>
     if depth + 1 > maxValueDepth then .error .tooDeep else
     match bs with
     | [] => .error .eoi
-    | kb :: r => match classify kb with
+    | kb :: r => match classifyC cfg kb with
       | Option.none => .error .invalid
       | Option.some .none => .ok (.none, r)
-      | Option.some .some => match dec utf8 fuel r (depth + 1) with
+      | Option.some .some => match dec cfg fuel r (depth + 1) with
         | .error e => .error e
         | .ok (v, r') => .ok (.some v, r')
       | Option.some .bool => match r with
@@ -313,10 +338,10 @@ def dec (utf8 : Bool) : Nat → Bytes → Nat → Except DeErr (Value × Bytes)
         | .error e => .error e
         | .ok (n, r1) => match takeN n r1 with
           | .error e => .error e
-          | .ok (s, r2) => if utf8 && !validUtf8 s then .error .invalid else .ok (.string s, r2)
+          | .ok (s, r2) => if cfg.utf8 && !validUtf8 s then .error .invalid else .ok (.string s, r2)
       | Option.some .vec1 => match getVarint 4 r with
         | .error e => .error e
-        | .ok (n, r1) => match decElems1 utf8 fuel n r1 (depth + 1) with
+        | .ok (n, r1) => match decElems1 cfg fuel n r1 (depth + 1) with
           | .error e => .error e
           | .ok (vs, r2) => .ok (.vec vs, r2)
       | Option.some .bytes1 => match getVarint 4 r with
@@ -325,86 +350,86 @@ def dec (utf8 : Bool) : Nat → Bytes → Nat → Except DeErr (Value × Bytes)
           if short r1 n then .error .invalid else .ok (.bytes (r1.take n), r1.drop n)
       | Option.some (.map1 kt) => match getVarint 4 r with
         | .error e => .error e
-        | .ok (n, r1) => match decEntries1 utf8 kt fuel n r1 (depth + 1) with
+        | .ok (n, r1) => match decEntries1 cfg kt fuel n r1 (depth + 1) with
           | .error e => .error e
           | .ok (es, r2) => .ok (.map kt es, r2)
       | Option.some (.set1 kt) => match getVarint 4 r with
         | .error e => .error e
-        | .ok (n, r1) => match decKeys1 utf8 kt fuel n r1 with
+        | .ok (n, r1) => match decKeys1 cfg.utf8 kt fuel n r1 with
           | .error e => .error e
           | .ok (ks, r2) => .ok (.set kt ks, r2)
       | Option.some .enum => match getVarint 4 r with
         | .error e => .error e
-        | .ok (id, r1) => match dec utf8 fuel r1 (depth + 1) with
+        | .ok (id, r1) => match dec cfg fuel r1 (depth + 1) with
           | .error e => .error e
           | .ok (v, r2) => .ok (.enum id v, r2)
-      | Option.some .vec2 => match decElems2 utf8 fuel r (depth + 1) with
+      | Option.some .vec2 => match decElems2 cfg fuel r (depth + 1) with
         | .error e => .error e
         | .ok (vs, r1) => .ok (.vec vs, r1)
       | Option.some .bytes2 => match decChunks fuel r with
         | .error e => .error e
         | .ok (s, r1) => .ok (.bytes s, r1)
-      | Option.some (.map2 kt) => match decEntries2 utf8 kt fuel r (depth + 1) with
+      | Option.some (.map2 kt) => match decEntries2 cfg kt fuel r (depth + 1) with
         | .error e => .error e
         | .ok (es, r1) => .ok (.map kt es, r1)
-      | Option.some (.set2 kt) => match decKeys2 utf8 kt fuel r with
+      | Option.some (.set2 kt) => match decKeys2 cfg.utf8 kt fuel r with
         | .error e => .error e
         | .ok (ks, r1) => .ok (.set kt ks, r1)
 termination_by structural x _ _ => x
 
 /-- `Vec1Deserializer::deserialize_extend`. -/
-def decElems1 (utf8 : Bool) : Nat → Nat → Bytes → Nat → Except DeErr (List Value × Bytes)
+def decElems1 (cfg : DecCfg) : Nat → Nat → Bytes → Nat → Except DeErr (List Value × Bytes)
   | 0, _, _, _ => .error .fuel
   | fuel + 1, n, bs, d =>
     if n = 0 then .ok ([], bs) else
-    match dec utf8 fuel bs d with
+    match dec cfg fuel bs d with
     | .error e => .error e
-    | .ok (v, r) => match decElems1 utf8 fuel (n - 1) r d with
+    | .ok (v, r) => match decElems1 cfg fuel (n - 1) r d with
       | .error e => .error e
       | .ok (vs, r') => .ok (v :: vs, r')
 termination_by structural x _ _ _ => x
 
 /-- `Vec2Deserializer::deserialize_extend`. -/
-def decElems2 (utf8 : Bool) : Nat → Bytes → Nat → Except DeErr (List Value × Bytes)
+def decElems2 (cfg : DecCfg) : Nat → Bytes → Nat → Except DeErr (List Value × Bytes)
   | 0, _, _ => .error .fuel
   | _ + 1, [], _ => .error .eoi
   | fuel + 1, m :: r, d =>
     if m = Kind.none.b then .ok ([], r)
     else if m = Kind.some.b then
-      match dec utf8 fuel r d with
+      match dec cfg fuel r d with
       | .error e => .error e
-      | .ok (v, r1) => match decElems2 utf8 fuel r1 d with
+      | .ok (v, r1) => match decElems2 cfg fuel r1 d with
         | .error e => .error e
         | .ok (vs, r2) => .ok (v :: vs, r2)
     else .error .invalid
 termination_by structural x _ _ => x
 
 /-- `Map1Deserializer::deserialize_extend` / `Struct1Deserializer` loop. -/
-def decEntries1 (utf8 : Bool) (kt : KeyTy) : Nat → Nat → Bytes → Nat → Except DeErr (List (Key × Value) × Bytes)
+def decEntries1 (cfg : DecCfg) (kt : KeyTy) : Nat → Nat → Bytes → Nat → Except DeErr (List (Key × Value) × Bytes)
   | 0, _, _, _ => .error .fuel
   | fuel + 1, n, bs, d =>
     if n = 0 then .ok ([], bs) else
-    match decKey utf8 kt bs with
+    match decKey cfg.utf8 kt bs with
     | .error e => .error e
-    | .ok (k, r0) => match dec utf8 fuel r0 d with
+    | .ok (k, r0) => match dec cfg fuel r0 d with
       | .error e => .error e
-      | .ok (v, r) => match decEntries1 utf8 kt fuel (n - 1) r d with
+      | .ok (v, r) => match decEntries1 cfg kt fuel (n - 1) r d with
         | .error e => .error e
         | .ok (es, r') => .ok ((k, v) :: es, r')
 termination_by structural x _ _ _ => x
 
 /-- `Map2Deserializer::deserialize_extend` / `Struct2Deserializer` loop. -/
-def decEntries2 (utf8 : Bool) (kt : KeyTy) : Nat → Bytes → Nat → Except DeErr (List (Key × Value) × Bytes)
+def decEntries2 (cfg : DecCfg) (kt : KeyTy) : Nat → Bytes → Nat → Except DeErr (List (Key × Value) × Bytes)
   | 0, _, _ => .error .fuel
   | _ + 1, [], _ => .error .eoi
   | fuel + 1, m :: r, d =>
     if m = Kind.none.b then .ok ([], r)
     else if m = Kind.some.b then
-      match decKey utf8 kt r with
+      match decKey cfg.utf8 kt r with
       | .error e => .error e
-      | .ok (k, r0) => match dec utf8 fuel r0 d with
+      | .ok (k, r0) => match dec cfg fuel r0 d with
         | .error e => .error e
-        | .ok (v, r1) => match decEntries2 utf8 kt fuel r1 d with
+        | .ok (v, r1) => match decEntries2 cfg kt fuel r1 d with
           | .error e => .error e
           | .ok (es, r2) => .ok ((k, v) :: es, r2)
     else .error .invalid
@@ -708,8 +733,8 @@ def fuelFor (bs : Bytes) : Nat := 2 * bs.length + 2
 def encodeTop (ep : Epoch) (v : Value) : Except SerErr Bytes := enc ep v 0
 
 /-- `SerializedValueSlice::deserialize_as_value`: decode at depth 0, then the `TrailingData` check. -/
-def decodeTop (utf8 : Bool) (bs : Bytes) : Except DeErr Value :=
-  match dec utf8 (fuelFor bs) bs 0 with
+def decodeTop (cfg : DecCfg) (bs : Bytes) : Except DeErr Value :=
+  match dec cfg (fuelFor bs) bs 0 with
   | .error e => .error e
   | .ok (v, rest) => if rest.isEmpty then .ok v else .error .trailing
 
